@@ -148,7 +148,9 @@ def canon_obs(o):
 
 def make_measurement(m):
   tok, has = m
-  return vz.Measurement(metrics={'obj': float(tok)} if has else {}, steps=int(tok))
+  # every third measurement reports the value 0.0 (a metric with the value zero is a metric; the step count keeps
+  # the measurements apart)
+  return vz.Measurement(metrics={'obj': 0.0 if int(tok) % 3 == 0 else float(tok)} if has else {}, steps=int(tok))
 
 
 def make_metadata(kvs):
